@@ -10,7 +10,7 @@ Mults(k) == IF k = 4 THEN {0, 1, 2, 3}      \* TLC integers are 32-bit
             ELSE {0, 1, 2, 7, 8, 9, (MAXC \div Sz(k)) - 1, MAXC \div Sz(k)}
 Coords == UNION {{m * Sz(k) + d : m \in Mults(k), d \in -2..2} : k \in 0..4}
           \cup {2147483646, MAXC + 131072}
-SmallCoords == UNION {{m * Sz(k) + d : m \in {0, 1, 8, MAXC \div Sz(k)}, d \in -1..1} : k \in {0, 1, 4}}
+SmallCoords == UNION {{m * Sz(k) + d : m \in {0, 1, 8, MAXC \div Sz(k)}, d \in -1..1} : k \in {0, 1, 3}}    \* (8 * 2^29 would overflow TLC integers)
 
 VARIABLES s, e, fmt, done
 vars == <<s, e, fmt, done>>
